@@ -222,7 +222,7 @@ func genTermCase(t *rapid.T) termCase {
 	return c
 }
 
-func estimate(text string) float64 { return rc.EstimateExpansion(text) }
+func estimate(text string, cfg gen.AsmConfig) float64 { return rc.EstimateExpansion(text, cfg.RC()) }
 
 func request(c termCase) wk.Request {
 	mode := 2
@@ -239,7 +239,7 @@ func judgeTermCase(t testing.TB) func(c termCase, rec *hx.Rec) string {
 		if frozenText != "" && c.Text != frozenText {
 			return ""
 		}
-		est := rc.EstimateExpansion(c.Text)
+		est := rc.EstimateExpansion(c.Text, c.Cfg.RC())
 		if math.IsInf(est, 1) || est > expansionBound {
 			if rec != nil {
 				rec.Discard("expansion_estimate_above_bound")
